@@ -148,8 +148,12 @@ func checkC17(c c17Case) (ci caseInfo, err error) {
 		return ci, fmt.Errorf("harness: %v", serr)
 	}
 	sh.complete = ast.NewHSMSDataMessage(h.Name, h.Stream, h.Function, 0, h.Dir, buildItem(full, c.Variant), 7, []byte{9, 9, 9, 9})
-	sh.wire = sh.complete.ToBytes()
-	sh.text = sh.msg.String() + "\n" + sh.complete.String()
+	// texts and encodings come from SEPARATE instances built from the same model: the shared objects themselves
+	// are first observed inside the concurrent phase (a lazily filled per-object memo would otherwise be warm)
+	textSrc := ast.NewDataMessage(h.Name, h.Stream, h.Function, 2, h.Dir, buildItem(c.Tree, c.Variant))
+	completeSrc := ast.NewHSMSDataMessage(h.Name, h.Stream, h.Function, 0, h.Dir, buildItem(full, c.Variant), 7, []byte{9, 9, 9, 9})
+	sh.wire = completeSrc.ToBytes()
+	sh.text = textSrc.String() + "\n" + completeSrc.String()
 	if c.BadText {
 		sh.text = strings.Replace(sh.text, ">", "> 1e999 >", 1)
 		sh.wire = append([]byte(nil), sh.wire[:len(sh.wire)-1]...)
